@@ -32,7 +32,7 @@ pub fn run_async(ctl: &Arc<Controller>, plan: &PlanTuple, port: u16, active: &st
             ctl_register_task(&ctl, &name);
             for k in 0..sends {
                 let env = Envelope::new(Some(format!("s{i}@example.org").parse().unwrap()), vec!["to@example.org".parse().unwrap()]).unwrap();
-                let r = t.send_raw(&env, format!(".s{i}.{k}\r\r\n{}", crate::sched::MESSAGE_TAIL).as_bytes()).await;
+                let r = t.send_raw(&env, format!(".s{i}.{k}\r\r\n{}", crate::sched::message_tail()).as_bytes()).await;
                 results.lock().unwrap().entry(name.clone()).or_default().push(describe_pub(&r));
             }
             drop(t);
